@@ -123,6 +123,8 @@ def classify(result, text, labels, fns):
         spans = [s for s in d.get("spans", [])]
         for ch in d.get("children", []):
             spans += ch.get("spans", [])
+        if not spans:
+            continue  # summary line without location (Verus repeats the message); the located diagnostic follows
         prim = [s for s in spans if s.get("is_primary")]
         ours = [s for s in spans if not s["file_name"].startswith("/") or os.path.basename(s["file_name"]) == os.path.basename(result.get("path", ""))]
         label = None
@@ -149,6 +151,13 @@ def classify(result, text, labels, fns):
             if t0:
                 ptext = lex.norm(re.sub(r"//@L.*$", "", t0["text"]))
         fn = fn_of(pl)
+        # disambiguate repeated statements (e.g. two `continue;`) by their ordinal inside the function
+        if ptext and fn != "?":
+            a = next((x[1] for x in ranges if x[0] == fn), None)
+            if a is not None:
+                nth = sum(1 for ln in range(a, pl) if lex.norm(re.sub(r"//@L.*$", "", lines[ln - 1])) == ptext)
+                if nth:
+                    ptext = "%s #%d" % (ptext, nth + 1)
         kind = msg.split(":")[0]
         kind = re.sub(r"[^a-z]+", "_", kind.lower()).strip("_")
         failures.append(dict(label=label, site="%s@%s:%s" % (kind, fn, ptext), kind=kind, fn=fn,
